@@ -149,8 +149,12 @@ pub fn drop_full_queue(a: &Value) -> Value {
         let (violation, obs) = if kind == "subscription" {
             (unsubs != 1, json!({"unsubscribe_requests": unsubs}))
         } else {
+            #[cfg(jsonrpsee_verif)]
+            let handlers_left = c.verif_table_sizes().3;
+            #[cfg(not(jsonrpsee_verif))]
+            let handlers_left = 0usize;
             let again = c.subscribe_to_method::<String>("event").await;
-            (again.is_err(), json!({"reregister_ok": again.is_ok()}))
+            (again.is_err() || handlers_left != 0, json!({"reregister_ok": again.is_ok(), "notification_handlers_left": handlers_left}))
         };
         json!({"scenario":"c05_drop_full_queue","observed":obs,"violation":violation,
                "why": if violation {"a closed channel discovered by a later notification was not cleaned up (no unsubscribe / handler still registered)"} else {""}})
